@@ -12847,12 +12847,12 @@ Tree_set_root_threshold(Tree *self, PyObject *args)
 {
     PyObject *ret = NULL;
     int err;
-    unsigned int threshold = 0;
+    uint32_t threshold = 0;
 
     if (Tree_check_state(self) != 0) {
         goto out;
     }
-    if (!PyArg_ParseTuple(args, "I", &threshold)) {
+    if (!PyArg_ParseTuple(args, "O&", &uint32_converter, &threshold)) {
         goto out;
     }
 
